@@ -6,6 +6,7 @@ Property theorems only; proofs in TddaVerif/Lemmas/Artefacts.lean.
 import TddaVerif.Model.CheckStrings
 import TddaVerif.Props.C04Spec
 import TddaVerif.Lemmas.Artefacts
+import TddaVerif.Lemmas.TmpDir
 
 namespace TddaVerif.Props.C15
 open TddaVerif.Py TddaVerif.CheckStrings TddaVerif.Props.C04
@@ -59,6 +60,42 @@ theorem postprocessed_differ_exactly (o : Opts) (pat : PatFn) (a e : List Line)
     (ra.zip re).filter (fun p => p.1 != p.2)
       = (badPairs o pat a e).map (fun p => (normalize o p.1, normalize o p.2)) :=
   Lemmas.postprocessed_differ_exactly o pat a e ra re hl hr
+
+/-! ### where the files go (Model/TmpDir.lean) -/
+open TddaVerif.TmpDir in
+/-- a directory configured with `set_defaults(tmp_dir=d)` is the one written to, whatever TDDA_FAIL_DIR and the system say -/
+theorem configured_dir_wins (d : Path) (env : Option Path) (sys : Path) (h : d ≠ []) :
+    tmpDir (some (some d)) env sys = d := TmpDir.Lemmas.explicit_dir_wins d env sys h
+
+open TddaVerif.TmpDir in
+/-- with nothing configured, TDDA_FAIL_DIR is used -/
+theorem env_dir_when_unset (d sys : Path) (h : d ≠ []) : tmpDir none (some d) sys = d :=
+  TmpDir.Lemmas.env_dir_when_unset d sys h
+
+open TddaVerif.TmpDir in
+/-- and otherwise (nothing configured and no variable, or `None` / an empty string configured) the system's directory -/
+theorem system_dir_otherwise (sys : Path) :
+    tmpDir none none sys = sys ∧ tmpDir (some none) none sys = sys ∧ tmpDir (some (some [])) none sys = sys
+    ∧ ∀ env, tmpDir (some none) env sys = sys := TmpDir.Lemmas.system_dir_otherwise sys
+
+open TddaVerif.TmpDir in
+/-- **nothing outside the temporary directory.** Every path add_failures writes, for whatever actual / reference path
+    (absolute, with directories, ending in a separator, holding a name that looks like a temporary one), is a direct
+    child of the temporary directory -/
+theorem written_inside (d : Path) (c : Call) : ∀ p ∈ written d c, ChildOf d p := TmpDir.Lemmas.written_inside d c
+
+open TddaVerif.TmpDir in
+/-- the files of one failure do not overwrite each other -/
+theorem written_nodup (d : Path) (c : Call) : (written d c).Nodup := TmpDir.Lemmas.written_nodup d c
+
+open TddaVerif.TmpDir in
+/-- `create_temporaries=False` writes nothing -/
+theorem no_temporaries_writes_nothing (d : Path) (c : Call) (h : c.createTemporaries = false) : written d c = [] :=
+  TmpDir.Lemmas.no_temporaries_writes_nothing d c h
+
+open TddaVerif.TmpDir in
+example : written "/t/tmp".toList ⟨none, some "ref/dir/STDOUT".toList, true, false, true, true⟩
+    = ["/t/tmp/actual-raw-STDOUT".toList, "/t/tmp/actual-STDOUT".toList, "/t/tmp/expected-STDOUT".toList] := by decide
 
 /- non-vacuity -/
 example : diffMarker "took 12 ms".toList "took 345 ms".toList = "took (12|345) ms".toList := by decide
